@@ -14,6 +14,7 @@ import (
 )
 
 type thread struct {
+	sleeping   bool    // blocked in time.Sleep (woken by the next vAdvance)
 	background bool    // started by a go statement of the code under test (not by vSpawn)
 	parent     *thread
 	id      int
@@ -39,7 +40,8 @@ type scheduler struct {
 
 func (i *interpreter) resetSched() {
 	main := &thread{id: 0, wake: make(chan struct{}, 1)}
-	i.sched = scheduler{threads: []*thread{main}, cur: main, exited: make(chan struct{}, 64), preemptBound: -1}
+	// a fresh scheduler object per path: goroutines of an earlier path keep referring to theirs
+	i.sched = &scheduler{threads: []*thread{main}, cur: main, exited: make(chan struct{}, 256), preemptBound: -1}
 }
 
 func (t *thread) runnable() bool {
@@ -48,7 +50,7 @@ func (t *thread) runnable() bool {
 
 // spawn starts a new engine thread for a go statement.
 func (i *interpreter) spawn(fr *frame, site ssa.Instruction, fn value, args []value) {
-	s := &i.sched
+	s := i.sched
 	t := &thread{id: len(s.threads), wake: make(chan struct{}, 1)}
 	// goroutines started from non-target packages (tickers, updaters) are daemons
 	if fr != nil && !i.isTargetFn(fr.fn) {
@@ -114,7 +116,7 @@ type threadPanic struct {
 // passBaton is called by a finished thread: wake another runnable thread (main preferred when an
 // abort is pending).
 func (i *interpreter) passBaton(from *thread) {
-	s := &i.sched
+	s := i.sched
 	if s.abortVal != nil {
 		s.cur = s.threads[0]
 		s.threads[0].canRun = nil
@@ -137,7 +139,7 @@ type deadlock struct{}
 
 // pickNext chooses the next thread to run among runnable ones (decision).
 func (i *interpreter) pickNext(cur *thread, why string) *thread {
-	s := &i.sched
+	s := i.sched
 	var cands []*thread
 	if cur != nil && cur.background && !cur.runnable() && cur.parent != nil && cur.parent.runnable() {
 		// a background thread that blocks hands control back to whoever started it
@@ -182,7 +184,7 @@ func (i *interpreter) pickNext(cur *thread, why string) *thread {
 
 // yield is a scheduling point for the current thread.
 func (i *interpreter) yield(why string) {
-	s := &i.sched
+	s := i.sched
 	if len(s.threads) == 1 {
 		return
 	}
@@ -208,7 +210,7 @@ func (i *interpreter) yield(why string) {
 
 // blockUntil suspends the current thread until cond holds.
 func (i *interpreter) blockUntil(cond func() bool, why string) {
-	s := &i.sched
+	s := i.sched
 	cur := s.cur
 	if cond() {
 		return
@@ -247,7 +249,7 @@ func (i *interpreter) checkKilled() { i.checkKilledT(i.sched.cur) }
 
 // checkKilledT is called by thread t after it has been woken (or before it yields).
 func (i *interpreter) checkKilledT(t *thread) {
-	s := &i.sched
+	s := i.sched
 	if s.killing && t.id != 0 {
 		panic(abort(abExit, "killed"))
 	}
@@ -267,7 +269,7 @@ func (i *interpreter) checkKilledT(t *thread) {
 }
 
 func (i *interpreter) deadlocked() {
-	s := &i.sched
+	s := i.sched
 	// only daemons blocked and main blocked => real deadlock if a non-daemon is blocked
 	msg := "deadlock:"
 	for _, t := range s.threads {
@@ -292,27 +294,22 @@ func (i *interpreter) deadlocked() {
 
 // killThreads terminates all non-main threads at the end of a path.
 func (i *interpreter) killThreads() {
-	s := &i.sched
+	s := i.sched
 	s.killing = true
+	// every other thread is parked now (only the caller runs): count first, then wake them all
+	var live []*thread
 	for _, t := range s.threads[1:] {
 		if !t.done {
-			select {
-			case t.wake <- struct{}{}:
-			default:
-			}
+			live = append(live, t)
 		}
 	}
-	// wait for the ones that can exit
-	for _, t := range s.threads[1:] {
-		_ = t
-	}
-	n := 0
-	for _, t := range s.threads[1:] {
-		if !t.done {
-			n++
+	for _, t := range live {
+		select {
+		case t.wake <- struct{}{}:
+		default:
 		}
 	}
-	for k := 0; k < n; k++ {
+	for range live {
 		<-s.exited
 	}
 }
@@ -530,4 +527,20 @@ func schedPoint(why string) bool {
 		return true
 	}
 	return false
+}
+
+// runSleepers lets every background thread that sleeps in time.Sleep run up to its next blocking
+// point; called after the virtual clock advanced.
+func (i *interpreter) runSleepers() {
+	s := i.sched
+	cur := s.cur
+	for _, t := range s.threads {
+		if t.background && t.sleeping && !t.done && t.canRun != nil && t.canRun() {
+			t.parent = cur
+			s.cur = t
+			t.wake <- struct{}{}
+			<-cur.wake
+			i.checkKilledT(cur)
+		}
+	}
 }
